@@ -242,6 +242,8 @@ def py_binop(op, a, b):
         a = a.value
     if isinstance(b, IByteArray):
         b = b.value
+    if (isinstance(a, IStub) and a.kind == "opaque") or (isinstance(b, IStub) and b.kind == "opaque"):
+        return IStub("opaque-result", "opaque")     # datetime arithmetic etc.: framed out, value never inspected
     if not is_sym(a) and not is_sym(b):
         if isinstance(a, (list, tuple)) and isinstance(b, (list, tuple)) and op == "+":
             return a + b
